@@ -777,7 +777,21 @@ func TakeSnapshot(t tensor.Tensor) Snapshot {
 	if t == nil {
 		return Snapshot{Nil: true}
 	}
-	s := Snapshot{Dt: dtName(t.Dtype()), Shape: append([]int{}, t.Shape()...), Strides: append([]int{}, t.Strides()...)}
+	var s Snapshot
+	broken := false
+	func() {
+		// a tensor that was handed back to the tensor library's pool has no dtype any more: reading it panics
+		defer func() {
+			if r := recover(); r != nil {
+				s = Snapshot{Dt: "destroyed", Bits: fmt.Sprintf("unreadable: %v", r)}
+				broken = true
+			}
+		}()
+		s = Snapshot{Dt: dtName(t.Dtype()), Shape: append([]int{}, t.Shape()...), Strides: append([]int{}, t.Strides()...)}
+	}()
+	if broken {
+		return s
+	}
 	func() {
 		defer func() {
 			if r := recover(); r != nil {
